@@ -21,3 +21,4 @@ def check(rep, tier):
     rep.run(tracer_trace.run, rep, tier, only=("TR-result",))
     from contracts import rules_shape as _rs
     rep.run(_rs.run_adjoint_helpers, rep, tier)     # E3: second-order rules of dot / tensordot (the adjoint helpers' own VJPs), symbolic sizes
+    rep.run(programs_exact.run_ops, rep)      # second-order operators (hvp, hessian, ggnvp with f_argnum / coupled losses) against exact Jacobians
